@@ -23,8 +23,19 @@ RULE = ("One op = one call sequence of the real code with one canonical result l
         "up to length 40 plus, for every length 1..40, strings whose encoded size is n, 2n, 3n, 4n and n+1..n+3 (all buffer growth paths); "
         "single calls of the real codecvt facet for every window size incl. primed states (contract of the abstract converter); ill-formed "
         "byte / wide strings (truncated, overlong, surrogates, > U+10FFFF, stray bytes, embedded NULs) where additionally the result must be "
-        "the complete conversion or a failure by the plugin's own strict UTF-8 coder (extra_checks). An op is non-trivial unless it is "
-        "`native` or answered bad-op.")
+        "the complete conversion or a failure by the plugin's own strict UTF-8 coder (extra_checks). Added by the extension round: "
+        "bool / char / char8_t / char16_t exhaustively and wchar_t / char32_t / long long / unsigned long long on the lattice; every script of "
+        "up to 3 (thorough 4) steps {io::write, io::read, write_chars, read_chars, peek, clear} on ONE std::stringstream with the state bits "
+        "after every step, plus seeded scripts with mixed types and byte orders; every text over {space,-,+,0,1,2,x} up to 4 into bool, every "
+        "text over {space,a,b,newline} up to 5 into std::(w)string; a grouping numpunct and a ctype with one more white-space character "
+        "(the locale argument must be imbued); every sequence of up to 2 (thorough 3) steps {io::get, peek, extract<char|string|bool|int|"
+        "unsigned short>, expect, clear, enum input, vector input} on every text over small alphabets; an enum with empty / blank / NUL / "
+        "prefix names, every short text as enum input with the target variable printed, wide streams, enum array and matrix output, several "
+        "vectors read from one stream; the impl::codecvt loop run over scripted facets installed in a locale (every input over "
+        "{01,02,03,0f,ee,fd} up to length 4 (thorough 5) x 16 flag sets x 4 max_lengths x 3 chunk sizes x both directions: noconv, error, "
+        "partial with nothing written, ok with input left over, max_length 0, state carried between calls, to_next left null). float / double "
+        "decimal text is judged by an exact-rational oracle of the plugin (extra_checks), outside the Lean model. An op is non-trivial unless "
+        "it is `native`, `literals` or answered bad-op.")
 ASSUMPTIONS = [
     "object representation of an n-byte integer = its n base-256 digits (two's complement), least significant first on this machine "
     "(native is a parameter of the model; the harness reports std::endian::native); float/double only as the same-width bit pattern",
@@ -39,6 +50,15 @@ ASSUMPTIONS = [
     "for ANY converter meeting the stated Contract",
     "wchar_t is a 32-bit code point; C.utf8 is the only UTF-8 locale of the sandbox; FCPPT_NARROW_STRING is defined (fcppt::string = std::string)",
     "enumerator = its index; names table = to_string_impl<Enum>::get",
+    "std::stringstream: ostream::write only writes to a good() stream and leaves a stream that is not good and not bad untouched (libstdc++ 12 "
+    "sentry: `else if (bad()) setstate(failbit)`), istream::read sets eofbit|failbit on a short read and consumes what was there, peek sets "
+    "eofbit only, both directions share the state bits (Model/C15/Stream.lean): validated by the exhaustive stream scripts, not proved",
+    "istream::get(), num_get::do_get(bool&) without boolalpha (reads a long; 0/1 are the values, anything else stores true + failbit), "
+    "num_put with numpunct grouping \"\\3\" (a separator in front of every complete group of three digits; reading such a text back through the "
+    "same locale is modelled as: the canonical separators are skipped), ctype<char> tables only affect the sentry's white-space skipping, "
+    "ctype<wchar_t>::narrow(c, 0) is c below 128 and 0 otherwise: validated, not proved",
+    "the scripted facets (c15::toy_facet in harness/c15.cpp) compute exactly Model/C15/Toy.lean's toyStep (same definition written twice; "
+    "mbstate_t.__count / __value.__wch hold the state); they reach the loop through the public narrow_locale / widen_locale with a std::locale",
 ]
 TRUSTED = ["harness/c15.cpp and the digest/line protocol (vh.hpp, Proto.lean)", "g++ 12 + ASan/UBSan as witness for memory safety of the instantiations"]
 
@@ -301,7 +321,7 @@ def expected_narrow(cs):
 
 
 def nontrivial(op, result):
-    return result != "bad-op" and op != "native"
+    return result != "bad-op" and op not in ("native", "literals")
 
 
 def weight(op):
@@ -988,7 +1008,7 @@ def known_finding_lines(findings, ev):
 
 
 MANIFEST = {
-    "level_text": ("Machine-checked proofs (Lean 4, 41 theorems) over executable models that mirror the anchored code: reverse_mem's index loop is "
+    "level_text": ("Machine-checked proofs (Lean 4, 69 theorems) over executable models that mirror the anchored code: reverse_mem's index loop is "
                    "list reversal for every length; swap∘swap = id, convert round trips, io::write emits the base-256 digits most/least "
                    "significant first and io::read∘io::write = id for every width, signedness, byte order, machine order and value, a short input "
                    "never yields a value; extract_from_string(output_to_string(v)) = v for every integer of 1..8 bytes and every accepted text is "
@@ -996,8 +1016,14 @@ MANIFEST = {
                    "names; vector/dim output/input round trip for every length; the impl::codecvt loop, for ANY converter meeting the stated "
                    "contract and from every buffer state, terminates and returns the conversion of the complete input or a failure, never a "
                    "proper prefix; UTF-8 decode∘encode and encode∘decode; widen(narrow(s)) = s for every string of valid characters incl. all "
-                   "Unicode scalar values. Tied to the code by a differential correspondence that is exhaustive over all 8/16-bit integers, all "
-                   "enumerators, all small vectors and all 1,114,112 code points."),
+                   "Unicode scalar values. Extension round: one stringstream object with shared state bits (values of any mix of types and byte "
+                   "orders come back in order, a failed read is sticky for both directions until clear(), read_chars/write_chars), bool and "
+                   "std::string through extract_from_string (strings round-trip iff non-empty and blank-free, never a part), locales with "
+                   "grouping or another ctype, enum stream input = from_string of the first word for ANY names table (duplicates, blanks, wide "
+                   "streams), white-space-tolerant vector input, several vectors per stream, matrix output, the loop is total for ANY converter "
+                   "that respects its window (no meaning needed) incl. the scripted facets of the harness, fcppt::string conversions. Tied to "
+                   "the code by a differential correspondence that is exhaustive over all 8/16-bit integers, all "
+                   "enumerators, all small vectors, all 1,114,112 code points, all short stream scripts and all short inputs of 384 scripted facets."),
     "level_note": ("PARTIAL: the UTF-8 conversion itself (glibc/libstdc++ codecvt) and num_get/num_put are library code; they enter as validated "
                    "assumptions (a stated contract + per-character models checked against the real facet/streams on every run), not as proved "
                    "code. widen's strong statement excludes the listed known finding (an incomplete sequence directly followed by an embedded "
